@@ -6,6 +6,10 @@
 // of the seeded scheduler, so calls overlap *inside* each other. Oracles: ownership invariant on
 // every access; results and final memory equal to the sequential execution of the same programs.
 #include <iconv.h>
+#include <linux/hw_breakpoint.h>
+#include <linux/perf_event.h>
+#include <sys/ioctl.h>
+#include <sys/syscall.h>
 #include <wchar.h>
 #include <time.h>
 #include <stdlib.h>
@@ -109,7 +113,7 @@ static std::string gen(const std::string &prop, uint64_t base, uint64_t idx, boo
 #else
     bool guard = idx % 5 == 3;
 #endif
-    line(strf("cfg tasks=%d sched=%s sseed=0x%llx layout=%s env=%d", ntasks, sched.c_str(), (unsigned long long)r.next(), guard ? "guard" : "packed", (int)((idx / 3) % 2)));
+    line(strf("cfg tasks=%d sched=%s sseed=0x%llx layout=%s env=%d hw=%d", ntasks, sched.c_str(), (unsigned long long)r.next(), guard ? "guard" : "packed", (int)((idx / 3) % 2), (int)(!guard && idx % 4 == 2)));
     int next_obj = 0;
     std::vector<std::string> objlines, calllines;  // (set-up calls come first in calllines)
     auto new_obj = [&](int task, size_t size, bool shared = false) {
@@ -337,6 +341,15 @@ struct World {
     uint64_t pr_heap = 0, pr_extra = 0, pr_env = 0, pr_libc_state = 0, pr_libc_dest = 0;
     std::map<uintptr_t, int> handle_user;  // opaque libc handle -> the task whose call used it first
     bool env_on = false;                    // every environment variable library code asks for reads "1" in this run
+    // hardware write watchpoints (debug registers, through perf_event_open) on the bytes right before and right behind the object of
+    // the running call: they see every store, whoever makes it - inline assembly, libc, a function opted out of instrumentation - and
+    // also a store that writes back the value that was there (a read-modify-write of a neighbour loses the neighbour's concurrent update)
+    bool hw = false;
+    int hw_fd[2] = {-1, -1};
+    bool hw_failed = false;
+    struct HwWatch { uintptr_t addr[2] = {0, 0}; unsigned len[2] = {0, 0}; int obj = -1; };
+    HwWatch hw_task[8];
+    uint64_t pr_hw_armed = 0;
     uint64_t events = 0;
     uint64_t static_bytes = 0;
     bool verbose = false;
@@ -439,6 +452,72 @@ static void check_access(uintptr_t a, size_t n, bool store, uintptr_t pc) {
     w.pr_unknown_load++;
 }
 
+static bool owned_by(int tid, uintptr_t a) {
+    World &w = *W;
+    size_t lo = 0, hi = w.objs.size();
+    while (lo < hi) {
+        size_t mid = (lo + hi) / 2;
+        if ((uintptr_t)w.objs[mid].p + w.objs[mid].size <= a) lo = mid + 1; else hi = mid;
+    }
+    return lo < w.objs.size() && a >= (uintptr_t)w.objs[lo].p && w.objs[lo].task == tid && !w.objs[lo].shared;
+}
+static void hw_program(int k, uintptr_t addr, unsigned len) {
+    World &w = *W;
+    if (w.hw_failed) return;
+    struct perf_event_attr a;
+    memset(&a, 0, sizeof a);
+    a.type = PERF_TYPE_BREAKPOINT;
+    a.size = sizeof a;
+    a.bp_type = HW_BREAKPOINT_W;
+    a.bp_addr = addr;
+    a.bp_len = len;
+    a.sample_period = 1;
+    a.exclude_kernel = 1;
+    a.exclude_hv = 1;
+    a.disabled = 1;
+    a.sigtrap = 1;
+    a.remove_on_exec = 1;
+    if (w.hw_fd[k] < 0) {
+        w.hw_fd[k] = (int)syscall(SYS_perf_event_open, &a, 0, -1, -1, 0);
+        if (w.hw_fd[k] < 0) { w.hw_failed = true; return; }  // no debug registers here: the run goes on without this oracle
+    } else if (ioctl(w.hw_fd[k], PERF_EVENT_IOC_MODIFY_ATTRIBUTES, &a) != 0) { w.hw_failed = true; return; }
+    ioctl(w.hw_fd[k], PERF_EVENT_IOC_ENABLE, 0);
+}
+static void hw_off() {
+    World &w = *W;
+    for (int k = 0; k < 2; k++) if (w.hw_fd[k] >= 0) ioctl(w.hw_fd[k], PERF_EVENT_IOC_DISABLE, 0);
+}
+static void hw_on(int tid) {
+    World &w = *W;
+    const World::HwWatch &h = w.hw_task[tid & 7];
+    for (int k = 0; k < 2; k++) if (h.len[k]) hw_program(k, h.addr[k], h.len[k]);
+}
+// called when task `tid` enters a library call whose principal object is o: watch what lies next to o, unless it is the task's own
+static void hw_enter(int tid, const Obj &o) {
+    World &w = *W;
+    if (!w.hw || w.hw_failed || tid < 0) return;
+    World::HwWatch &h = w.hw_task[tid & 7];
+    h = World::HwWatch();
+    h.obj = o.id;
+    uintptr_t start = (uintptr_t)o.p, end = start + o.size;
+    auto lowbit = [](uintptr_t x) { unsigned l = 8; while (l > 1 && (x & (l - 1))) l >>= 1; return l; };
+    unsigned la = lowbit(end);
+    auto any_owned = [&](uintptr_t a, unsigned n) { for (unsigned i = 0; i < n; i++) if (owned_by(tid, a + i)) return true; return false; };
+    while (la >= 1 && any_owned(end, la)) la >>= 1;  // (the window shrinks until none of its bytes belongs to the caller itself)
+    if (la) { h.addr[0] = end; h.len[0] = la; }
+    unsigned lb = lowbit(start);
+    while (lb >= 1 && any_owned(start - lb, lb)) lb >>= 1;
+    if (lb) { h.addr[1] = start - lb; h.len[1] = lb; }
+    w.pr_hw_armed++;
+    hw_on(tid);
+}
+static void hw_leave(int tid) {
+    World &w = *W;
+    if (!w.hw || tid < 0) return;
+    hw_off();
+    w.hw_task[tid & 7] = World::HwWatch();
+}
+
 static void preempt_point(bool is_store, uintptr_t addr) {
     World &w = *W;
     sim::Task *t = w.tasks.cur();
@@ -458,7 +537,9 @@ static void preempt_point(bool is_store, uintptr_t addr) {
         if (is_store && arena_addr && w.last_load[t->id] == addr) w.pr_rmw++;  // between the load and the store of one read-modify-write
         if (w.in_shared_call[t->id]) w.pr_shared++;
         w.digest.add64(0x5157ULL ^ (w.points << 8) ^ (uint64_t)t->id);
+        if (w.hw) hw_off();      // (the neighbours are somebody's own objects while that somebody runs)
         w.tasks.yield();
+        if (w.hw) hw_on(t->id);
     }
     if (!is_store && arena_addr) w.last_load[t->id] = addr;
 }
@@ -780,8 +861,8 @@ static uint64_t do_call(const Call &c, bool &skipped) {
     uint64_t res = 0;
     int tid = w.tasks.cur() ? w.tasks.cur()->id : -1;  // -1: set-up phase (main context, not monitored)
     if (tid >= 0) w.in_shared_call[tid] = o->shared;
-    auto enter = [&] { errno = stale_errno(c); if (tid >= 0) { w.in_call[tid] = 1; w.call_steps[tid & 7] = 0; snprintf(w.cur_fn, sizeof w.cur_fn, "%s%s%s", c.fn.c_str(), c.fmt.empty() ? "" : ".", c.fmt.c_str()); } w.calls++; };
-    auto leave = [&] { if (tid >= 0) w.in_call[tid] = 0; };
+    auto enter = [&] { errno = stale_errno(c); if (tid >= 0) { w.in_call[tid] = 1; w.call_steps[tid & 7] = 0; snprintf(w.cur_fn, sizeof w.cur_fn, "%s%s%s", c.fn.c_str(), c.fmt.empty() ? "" : ".", c.fmt.c_str()); hw_enter(tid, *o); } w.calls++; };
+    auto leave = [&] { if (tid >= 0) { hw_leave(tid); w.in_call[tid] = 0; } };
     // callers never hand a shared (read-only) object to a function that writes its argument
     if (tid >= 0 && o->shared && c.fn != "get" && c.fn != "vss_decode" && c.fn != "vss_pathlen" && c.fn != "can_paylen" && c.fn != "can_payoff") { skipped = true; return 0; }
     if (c.fn == "init" || c.fn == "set" || c.fn == "get") {
@@ -1078,6 +1159,7 @@ static void exec(const std::string &text, bool verbose) {
             sseed = kv.u64("sseed", 1);
             w.guard_layout = kv.str("layout", "packed") == "guard";
             w.env_on = kv.u64("env", 0);
+            w.hw = kv.u64("hw", 0);
             if (w.guard_layout) cursor = kPage;
             w.prog.assign(ntasks, {});
         } else if (kv.op == "obj") {
@@ -1179,6 +1261,7 @@ static void exec(const std::string &text, bool verbose) {
     if (w.pr_env) g_res.counters["environment_lookups_by_library_code"] = w.pr_env;
     if (w.pr_libc_state) g_res.counters["libc_calls_with_state_object_by_library_code"] = w.pr_libc_state;
     if (w.pr_libc_dest) g_res.counters["libc_calls_writing_through_a_pointer_by_library_code"] = w.pr_libc_dest;
+    if (w.hw) { g_res.counters[w.hw_failed ? "hw_watchpoints.unavailable" : "hw_watchpoints.runs"] = 1; g_res.counters["hw_watchpoints.calls_watched"] = w.pr_hw_armed; }
     g_res.counters["scen." + saved_policy] = 1;
     g_res.counters[w.guard_layout ? "layout.guard_pages" : "layout.packed"] = 1;
     sim::finish_run(g_res);
@@ -1191,11 +1274,24 @@ static sim::RunResult on_crash(const sim::CrashInfo &ci) {
         uint64_t pc = 0;
         size_t p = ci.note.find("pc=");
         if (p != std::string::npos) pc = strtoull(ci.note.c_str() + p + 3, nullptr, 16);
+        size_t hp = ci.note.find("hw=");
+        if (hp != std::string::npos) {
+            size_t cp = ci.note.find(" call=");
+            std::string call = cp == std::string::npos ? "?" : ci.note.substr(cp + 6, ci.note.find(' ', cp + 1) - cp - 6);
+            std::string fn = pc && sim::g_symtab.is_repo(pc) ? sim::g_symtab.func(pc) : call;
+            r.status = 1;
+            r.nontrivial = true;
+            r.sig = "reent:shared-state:hw-store:" + fn;
+            r.detail = strf("a store that no instrumentation callback announced (inline assembly, a libc function, or code opted out of instrumentation) hit a hardware "
+                            "watchpoint during %s: %s - memory that is not part of an object passed to the call (a store that writes back what it read still loses a concurrent update of the neighbour)",
+                            call.c_str(), ci.note.c_str() + hp + 3);
+            return r;
+        }
         size_t gp = ci.note.find("guard=");
         if (gp != std::string::npos && ci.note.find("incall=1") != std::string::npos && !(pc && sim::g_symtab.is_repo(pc))) {
             // the fault happened in a callee of the library (libc string/memory function) during a library call
-            size_t cp = ci.note.find("call=");
-            std::string call = cp == std::string::npos ? "?" : ci.note.substr(cp + 5, ci.note.find(' ', cp) - cp - 5);
+            size_t cp = ci.note.find(" call=");
+            std::string call = cp == std::string::npos ? "?" : ci.note.substr(cp + 6, ci.note.find(' ', cp + 1) - cp - 6);
             r.status = 1;
             r.nontrivial = true;
             r.sig = "reent:shared-state:guard:" + call;
@@ -1242,6 +1338,14 @@ static void fatal_handler(int sig, siginfo_t *si, void *uc) {
                      a < (uintptr_t)best->p ? (long)((uintptr_t)best->p - a) : (long)(a - ((uintptr_t)best->p + best->size) + 1),
                      a < (uintptr_t)best->p ? "before-the-start-of" : "past-the-end-of", best->id, best->task, best->size);
     }
+    if (W && sig == SIGTRAP && W->tasks.cur()) {
+        int cur = W->tasks.cur()->id;
+        const World::HwWatch &h = W->hw_task[cur & 7];
+        const Obj *o = nullptr;
+        for (auto &x : W->objs) if (x.id == h.obj) o = &x;
+        bool after = o && a >= (uintptr_t)o->p + o->size;
+        snprintf(what, sizeof what, " hw=task-%d-stored-to-the-bytes-%s-object-%d(%zu-bytes)-of-its-call", cur, after ? "right-behind" : "right-before", o ? o->id : -1, o ? o->size : (size_t)0);
+    }
     bool incall = W && W->tasks.cur() && W->in_call[W->tasks.cur()->id];
     if (sim::g_shm) snprintf(sim::g_shm->note, sizeof sim::g_shm->note, "pc=0x%llx signal=%d addr=0x%llx incall=%d call=%s%s", (unsigned long long)u->uc_mcontext.gregs[REG_RIP], sig,
                              (unsigned long long)a, (int)incall, incall ? W->cur_fn : "-", what);
@@ -1256,7 +1360,7 @@ static void exec_entry(const std::string &text, bool verbose) {
     memset(&sa, 0, sizeof sa);
     sa.sa_sigaction = fatal_handler;
     sa.sa_flags = SA_SIGINFO | SA_ONSTACK;
-    for (int s : {SIGSEGV, SIGBUS, SIGFPE, SIGILL, SIGABRT}) sigaction(s, &sa, nullptr);
+    for (int s : {SIGSEGV, SIGBUS, SIGFPE, SIGILL, SIGABRT, SIGTRAP}) sigaction(s, &sa, nullptr);
     exec(text, verbose);
 }
 
